@@ -111,3 +111,158 @@ def values_at(fn_node, target, name):
         if reached:
             results.append((g, e.get(name)))
     return results
+
+
+# ---------------------------------------------------------------------------
+# Bounded symbolic execution of "fill an array row by row" builders
+def basis_rows(prog, fn, size, size_param, arg_param):
+    """Execute the straight-line / loop / if statements of ``fn`` with the
+    integer parameter ``size_param`` = ``size`` and the array parameter
+    ``arg_param`` as the symbol x.  An array created by ones / zeros (or by a
+    callable parameter, as in func_basis) is a dict index -> Rat; stores
+    ``A[k] = e`` / ``A[:, k] = e`` fill it.  Returns {index: Rat} of the
+    array that is returned, or None when a construct is not understood."""
+    from .rules_formula import _eval_int
+    x = Rat(Poly.sym('x'))
+    ints = {size_param: size}
+    arrays = {}             # name -> ({index: Rat}, fill Rat)
+    result = {'val': None}
+
+    def idx_of(sub):
+        """index expression of A[k] / A[:, k] -> python int or None."""
+        sl = sub.slice
+        if isinstance(sl, ast.Tuple):
+            parts = [e for e in sl.elts
+                     if not (isinstance(e, ast.Slice) and e.lower is None and
+                             e.upper is None and e.step is None)]
+            if len(parts) != 1:
+                return None
+            sl = parts[0]
+        if isinstance(sl, ast.Slice):
+            return None
+        return _eval_int(sl, ints)
+
+    class Rd(ast.NodeTransformer):
+        def visit_Subscript(self, n):
+            if isinstance(n.value, ast.Name) and n.value.id in arrays:
+                k = idx_of(n)
+                if k is None:
+                    raise ValueError('index')
+                rows, fill = arrays[n.value.id]
+                key = '@row:%s:%d' % (n.value.id, k)
+                env[key] = rows.get(k, fill)
+                return ast.Name(id=key, ctx=ast.Load())
+            return ast.Name(id='@' + ast.unparse(n), ctx=ast.Load())
+
+        def visit_Call(self, n):
+            f = prog.dotted(n.func) or ''
+            if f.endswith('sqrt') and n.args and \
+                    isinstance(n.args[0], ast.Constant):
+                return ast.Name(id='@sqrt(%r)' % n.args[0].value,
+                                ctx=ast.Load())
+            return ast.Name(id='@' + ast.unparse(n), ctx=ast.Load())
+
+        def visit_Attribute(self, n):
+            return ast.Name(id='@' + ast.unparse(n), ctx=ast.Load())
+    env = {arg_param: x}
+
+    def ev(expr):
+        import copy as _c
+        return rat_eval(Rd().visit(_c.deepcopy(expr)), env)
+
+    def is_ctor(v):
+        if not isinstance(v, ast.Call):
+            return None
+        f = prog.dotted(v.func) or ''
+        if f.endswith('ones') or (isinstance(v.func, ast.Name) and
+                                  v.func.id in fn.all_params and
+                                  'ones' in v.func.id):
+            return Rat(1)
+        if f.endswith('zeros'):
+            return Rat(0)
+        return None
+
+    def run(stmts):
+        for st in stmts:
+            if result['val'] is not None:
+                return
+            if isinstance(st, ast.Assign) and len(st.targets) == 1:
+                t = st.targets[0]
+                if isinstance(t, ast.Name):
+                    fill = is_ctor(st.value)
+                    if fill is not None:
+                        arrays[t.id] = ({}, fill)
+                        continue
+                    iv = _eval_int(st.value, ints)
+                    if iv is not None:
+                        ints[t.id] = iv
+                        continue
+                    if t.id in arrays and isinstance(st.value, ast.Subscript):
+                        continue        # res = res[0]  (reduction of a point)
+                    continue
+                if isinstance(t, ast.Subscript) and \
+                        isinstance(t.value, ast.Name) and \
+                        t.value.id in arrays:
+                    k = idx_of(t)
+                    if k is None:
+                        raise ValueError('store index')
+                    arrays[t.value.id][0][k] = ev(st.value)
+                    continue
+            elif isinstance(st, ast.For) and isinstance(st.target, ast.Name) \
+                    and isinstance(st.iter, ast.Call) and \
+                    isinstance(st.iter.func, ast.Name) and \
+                    st.iter.func.id == 'range':
+                a = [_eval_int(z, ints) for z in st.iter.args]
+                if any(z is None for z in a):
+                    raise ValueError('range')
+                for k in range(*a):
+                    ints[st.target.id] = k
+                    run(st.body)
+                continue
+            elif isinstance(st, ast.If):
+                from .rules_formula import _eval_cmp
+                c = _eval_cmp(st.test, ints)
+                if c is None and isinstance(st.test, ast.Name) and \
+                        st.test.id in ints:
+                    c = bool(ints[st.test.id])
+                if c is None:
+                    # tests on the array argument (ndim etc.): the generic,
+                    # batched case does not take the reduction branch
+                    names = {z.id for z in ast.walk(st.test)
+                             if isinstance(z, ast.Name)}
+                    if names & set(ints):
+                        raise ValueError('test')
+                    c = False
+                    if isinstance(st.test, ast.Compare) and \
+                            isinstance(st.test.ops[0], (ast.NotEq,)):
+                        c = False
+                run(st.body if c else st.orelse)
+                continue
+            elif isinstance(st, ast.Return):
+                v = st.value
+                if isinstance(v, ast.IfExp):
+                    v = v.orelse
+                if isinstance(v, ast.Name) and v.id in arrays:
+                    rows, fill = arrays[v.id]
+                    result['val'] = {k: rows.get(k, fill)
+                                     for k in range(size)}
+                return
+            elif isinstance(st, ast.Raise):
+                return
+    try:
+        run(fn.node.body)
+    except ValueError:
+        return None
+    return result['val']
+
+
+def cheb_expected(k, first=None):
+    x = Rat(Poly.sym('x'))
+    t0, t1 = Rat(1), x
+    if k == 0:
+        return first if first is not None else t0
+    if k == 1:
+        return t1
+    for _ in range(2, k + 1):
+        t0, t1 = t1, Rat(2) * x * t1 - t0
+    return t1
